@@ -76,20 +76,27 @@ BUDGET_S = {"quick": 240, "thorough": 2400}
 
 
 def _dom(tier):
+    """plan: list of (pre alphabet, pre lengths, post lengths, largest flow length)."""
     if tier == "thorough":
-        # (pre length bound, post length bound) pairs that are enumerated
-        return dict(pre=ch.PRE_THOROUGH, combos=[(3, 1), (2, 2)], M=7, M_deep=5, parts=16, full_kinds=True)
-    return dict(pre=ch.PRE_QUICK, combos=[(2, 1)], M=5, M_deep=5, parts=4, full_kinds=False)
+        return dict(plan=[(ch.PRE_THOROUGH, (0, 1, 2), (0, 1), 7),
+                          (ch.PRE_THOROUGH, (0, 1), (2,), 5),
+                          (ch.PRE_QUICK, (3,), (0, 1), 4)],
+                    parts=16, full_kinds=True)
+    return dict(plan=[(ch.PRE_QUICK, (0, 1), (0, 1), 5),
+                      (ch.PRE_QUICK, (2,), (0, 1), 4)],
+                parts=8, full_kinds=False)
 
 
 def describe(tier):
     d = _dom(tier)
-    return ("chains: pre over %s, accumulators %s, post over %s; (max pre length, max post length) in %s; "
-            "flows of 0..%d values (0..%d for the longest pre chains) bare and with context; drivers: fcs, "
-            "fillseq, split-tuple/split-fcs/split-first/split-last (and split-bare for a lone accumulator) "
-            "with bufsize in {1..n+1, 1000, None}; companion branch %s. adapters: %s element kinds over %s x "
+    plan = "; ".join("pre of length %s over %s with post of length %s and flows of 0..%d values"
+                     % (list(pl), alpha, list(ql), m) for alpha, pl, ql, m in d["plan"])
+    return ("chains: %s; accumulators %s; post elements %s; flows bare and with context; drivers: fcs, "
+            "fillseq, split-tuple/split-first/split-last (and split-bare for a lone accumulator) with bufsize in "
+            "{1..n+1, 1000, None}, split-fcs with bufsize in %s; companion branch %s. adapters: %s element kinds over %s x "
             "%s x method-name arguments %s; real objects %s with names %s"
-            % (d["pre"], ch.ACCS, ch.POST_SINGLE, d["combos"], d["M"], d["M_deep"], ch.COMPANION,
+            % (plan, ch.ACCS, ch.POST_SINGLE,
+               "{1..n+1, 1000, None}" if d["full_kinds"] else "{1, None}", ch.COMPANION,
                "all 3^9" if d["full_kinds"] else "2^9 + 9*2^8 (at most one non-callable attribute)",
                ad.NAMES, ad.ADAPTERS, ad.NAME_ARGS, ad.OBJECT_NAMES, ad.OBJECT_NAME_ARGS))
 
@@ -99,20 +106,21 @@ def describe(tier):
 
 def _chain_plan(tier):
     """List of (pre, post, max flow length), each (pre, post) exactly once, simplest first."""
-    d = _dom(tier)
     seen = set()
     plan = []
-    maxpre = max(c[0] for c in d["combos"])
-    for pre in ch.pre_chains(d["pre"], maxpre):
-        for post in ch.post_chains(max(c[1] for c in d["combos"])):
-            if not any(len(pre) <= a and len(post) <= b for a, b in d["combos"]):
+    for alpha, pre_lens, post_lens, maxm in _dom(tier)["plan"]:
+        for pre in ch.pre_chains(alpha, max(pre_lens)):
+            if len(pre) not in pre_lens:
                 continue
-            key = (tuple(pre), tuple(post))
-            if key in seen:
-                continue
-            seen.add(key)
-            m = d["M"] if len(pre) < 3 else d["M_deep"]
-            plan.append((pre, post, m))
+            for post in ch.post_chains(max(post_lens)):
+                if len(post) not in post_lens:
+                    continue
+                key = (tuple(pre), tuple(post))
+                if key in seen:
+                    continue
+                seen.add(key)
+                plan.append((pre, post, maxm))
+    plan.sort(key=lambda t: (len(t[0]) + len(t[1]), len(t[0])))    # stable: simplest first
     return plan
 
 
@@ -148,9 +156,10 @@ def shards(tier):
 class _Chains(object):
     """Runs the drivers of one case and records; failures are shrunk once per raw signature."""
 
-    def __init__(self, res):
+    def __init__(self, res, full):
         self.res = res
         self.memo = {}
+        self.full = full        # every bufsize also for the explicit-FillComputeSeq Split form
 
     def case(self, pre, acc, post, kind, m):
         res = self.res
@@ -163,7 +172,7 @@ class _Chains(object):
         if ref[0] == "exc":
             res.count("reference_raised")
         last = None
-        for drv in ch.drivers(len(pre) + 1 + len(post), m):
+        for drv in ch.drivers(len(pre) + 1 + len(post), m, self.full):
             info = {}
             got = ch.run_driver(drv, pre, acc, post, kind, m, info)
             stopped = bool(info.get("stopped"))
@@ -196,7 +205,7 @@ class _Chains(object):
 
 def run_chains(res, p, tier):
     plan = _chain_plan(tier)[p["part"]::p["parts"]]
-    runner = _Chains(res)
+    runner = _Chains(res, _dom(tier)["full_kinds"])
     acc = p["acc"]
     for pre, post, maxm in plan:
         for kind in cm.FLOW_KINDS:
